@@ -85,7 +85,9 @@ def run_case(case):
     form = form_of(case)
     sig_class = [culture, 'pct' if pct else 'num', form, 'neg' if case['neg'] else 'pos']
     bucket = ':'.join(sig_class)
-    one = len(got) == 1 and got[0]['start'] == pos and got[0]['end'] == pos + len(lit_q) - 1
+    # the entity must cover the literal; like C01 the slice may carry blanks at its two ends
+    one = (len(got) == 1 and got[0]['start'] <= pos and got[0]['end'] >= pos + len(lit_q) - 1 and
+           q[got[0]['start']:got[0]['end'] + 1].strip() == lit_q)
     if not one:
         vs.append(V('NOT_ONE_ENTITY_OVER_LITERAL', {'query': q, 'literal': lit_q, 'expected_span': [pos, pos + len(lit_q) - 1], 'got': got},
                     bucket='SPAN:' + bucket))
